@@ -7,6 +7,9 @@ from vp.props import c09 as _c09
 GEN = ["taskmsg_tables"]
 TRUSTED = list(_c09.TRUSTED)
 ASSUMES = [
+    "batch stream: the real Scheduler.process_queued_task_messages is called on a stub scheduler object (real queue, "
+    "real TaskEventsManager.process_message, pool lookup and poll_task_jobs stubbed); process_job_message (messages of "
+    "tasks that are not in the pool) is stubbed and not modelled",
     "task level only; poll results are attributed to the task's current submit number (TaskJobManager."
     "_manip_task_jobs_callback drops results of other submit numbers) - checked at scheduler level",
     "final-outcome theorem: messages about the latest job are those the job emitted (one outcome, no submission "
@@ -118,7 +121,12 @@ META = {
         "submission (any interleaving, duplicates, stale messages, poll results, at least one delivery of the outcome, no "
         "polled 'started' after it) the final status is the outcome (or waiting-for-retry exactly when a retry remained) "
         "and the outputs are those the job emitted. The statement without the late-poll restriction is refuted in Coq "
-        "(known finding). Model tied to the code by per-step differential runs."),
+        "(known finding). Batch level (Model/TaskBatch.v = the per-task loop of Scheduler.process_queued_task_messages): the "
+        "task is polled iff some message of its batch, where it is processed, asked for it (= is current and backward); a "
+        "batch equals the sequence of its single-message batches (state, effects, OR of polls); the poll decision is "
+        "invariant under permutation of batches of stale/custom/backward messages; 'last message decides' is refuted. "
+        "Models tied to the code by per-step differential runs and by runs of the real process_queued_task_messages on "
+        "real TaskMsg queues."),
     "level_note": _c09.META["level_note"],
     "technique": _c09.META["technique"],
     "design_ref": "5/C10",
@@ -280,7 +288,7 @@ class BatchStream(Stream):
         ]
 
     def gen(self, rng, tier):
-        cases = [gen_batch(rng) for _ in range(450 if tier == "quick" else 4000)]
+        cases = [gen_batch(rng) for _ in range(300 if tier == "quick" else 4000)]
         if tier == "thorough":
             import itertools
             for pre in BATCH_PREFIXES:
